@@ -63,7 +63,7 @@ ASSUMPTIONS = [
 ]
 TOLERANCES = {"all checks": "exact (canonical forms, texts and parameter "
                             "names are compared for identity)"}
-TIMEOUT = 300
+TIMEOUT = 600
 # complete within the declared alphabets and deviation bound; the product is
 # complete only for classes with <= 3 arguments (coverage: per_class)
 EXHAUSTIVE = False
